@@ -45,6 +45,8 @@ PATTERNS = [
     ("Pregex('a') + Newline() + MatchAtLineStart('b')", ''), ("MatchAtLineEnd('a') + Newline() + 'b'", ''), ("'a' + Any() + 'b'", ''),
     ("Indefinite(Any()) + MatchAtLineEnd(Pregex('a'))", ''), ("Optional(MatchAtLineStart('a') + Newline()) + 'b'", ''),
     ("Pregex('\ufeff') + Optional('a')", '\ufeff'), ("Optional('a')", '\ufeff'),
+    # non-printable / astral code points: what get_pattern() prints is what compile() compiles
+    ("Pregex('\u2028')", '\u2028'), ("Pregex('\u202f') + 'a'", '\u202f'), ("Pregex('\u200b')", '\u200b'), ("Pregex('\U0001f600')", '\U0001f600'), ("Pregex('\x85')", '\x85'),
 ]
 
 MORE_PATTERNS = [
